@@ -50,7 +50,7 @@ fn c09_socket_case(case: &StreamCase) -> CaseReport {
         // a quit frame that gets executed ends the connection; completion is then EOF
         crate::stream::frame_walk(&stream).iter().any(|(_, _, h)| h.magic == 0x80 && (h.opcode == wire::QUIT || h.opcode == wire::QUITQ))
     };
-    let mut reference: Option<(Vec<u8>, bool, Vec<Option<Vec<u8>>>)> = None;
+    let mut reference: Option<(Vec<String>, bool, Vec<Option<Vec<u8>>>)> = None;
     let mut runs = 0u64;
     for cuts in &plans {
         let opts = ServerOpts { item_limit: case.limit, ..ServerOpts::default() };
@@ -74,24 +74,28 @@ fn c09_socket_case(case: &StreamCase) -> CaseReport {
             return rep;
         }
         runs += 1;
-        let mut bytes = vec![];
-        for r in &run.resps {
-            bytes.extend_from_slice(&format!("{:?}|", (r.opcode, r.status, r.opaque, r.cas, &r.extras, &r.key, &r.value)).into_bytes());
-        }
+        let resp_list: Vec<String> = run.resps.iter().map(|r| format!("{:?}", (r.opcode, r.status, r.opaque, r.cas, &r.extras, &r.key, &r.value))).collect();
         let closed = run.eof || run.reset || run.closed_at_chunk.is_some();
         let dump: Vec<Option<Vec<u8>>> = frames::KEYS.iter().map(|k| server.side_get(k).map(|r| r.value)).collect();
-        let this = (bytes, closed && !run.sentinel_seen, dump);
+        let this = (resp_list, closed && !run.sentinel_seen, dump);
         match &reference {
             None => reference = Some(this),
             Some(r0) => {
-                if *r0 != this {
+                // when the server closes the connection while the client still has bytes in flight, TCP may
+                // discard responses the client had not read yet (reset): then only a prefix relation can be required
+                let both_closed = r0.1 && this.1;
+                let n = r0.0.len().min(this.0.len());
+                let resp_ok = if both_closed { r0.0[..n] == this.0[..n] } else { r0.0 == this.0 };
+                if !(resp_ok && r0.1 == this.1 && r0.2 == this.2) {
                     rep.fail = Some(FailInfo {
                         clause: "segmentation_dependent_socket".into(),
                         msg: format!(
-                            "over a real socket the same {} bytes behave differently when delivered in one segment and when cut at {:?}: responses equal: {}, closed early: {} vs {}, store equal: {}",
+                            "over a real socket the same {} bytes behave differently when delivered in one segment and when cut at {:?}: responses equal: {} ({} vs {}), closed early: {} vs {}, store equal: {}",
                             stream.len(),
                             cuts,
-                            r0.0 == this.0,
+                            resp_ok,
+                            r0.0.len(),
+                            this.0.len(),
                             r0.1,
                             this.1,
                             r0.2 == this.2
